@@ -370,21 +370,9 @@ def standin_recursive_dirs(tier, seed):
 
 
 # ------------------------------------------------------------------ files of one invocation that touch each other: import DAGs, multisets, path spellings, directories
-# Genuine defect of HEAD, excluded from the family (reported; see the module doc string for what is pinned about importers):
 KNOWN = [
-    # base_test.ucg: `let x = 1; assert {ok = x == 2, desc = "base x is two"};`   a_test.ucg / b_test.ucg: `let b = import "base_test.ucg";
-    # assert {ok = b.x == 1, desc = "..."};`.  `ucg test b_test.ucg` -> b_test.ucg FAIL (log: NOT OK: base x is two, OK: own);
-    # `ucg test a_test.ucg b_test.ucg` -> a_test.ucg FAIL, b_test.ucg PASS (its log has only its own assertion): the import value cache of
-    # the shared environment keeps base_test.ucg's value after the first import of the run, so its assert statements are evaluated (and
-    # counted) only for the FIRST importer.  Same for `ucg test b_test.ucg b_test.ucg` (FAIL, then PASS).  Whichever way "evaluated in it"
-    # is read for imported assertions, b's verdict depends on which files were tested before it.  Excluded: the verdict of an importer
-    # that builds, whose own assertions hold and that (transitively) imports a file with a failing assertion, in a validation that
-    # comes after a file of the same run that also imports such a file.  Everything else about that importer is still checked.
-    dict(id='importer-verdict-depends-on-earlier-import', family='import_dag_invocations',
-         excluded='verdict of a building importer with only true own assertions that imports a file with a failing assertion, when an earlier file of the same invocation imported that file too',
-         input='base_test.ucg: let x = 1; assert {ok = x == 2, desc = "base x is two"};  a_test.ucg, b_test.ucg: let b = import "base_test.ucg"; assert {ok = b.x == 1, desc = "own"};  `ucg test a_test.ucg b_test.ucg` vs `ucg test b_test.ucg`',
-         observed='b_test.ucg - PASS after a_test.ucg (FAIL), b_test.ucg - FAIL alone / when listed first: imported assertions are evaluated for the first importer of a run only',
-         clause="one file's verdict does not depend on which other files were tested before it"),
+    # (importer-verdict-depends-on-earlier-import was repaired in ucg, a5bfd6a: the import value cache is reset per validated file; the
+    # exclusion is gone and such importers are compared with their verdict when validated alone in every validation.)
 ]
 
 DAG_DIRS = ['.', 'sub', 'sub/deep', 'other']
@@ -531,8 +519,6 @@ def check_dag_run(proj, expected, rc, so, se, alone=None):
                 problems.append('%s: line(s) `File %s %s`, expected %s (%s)' % (p, p, '/'.join(v for _, v in fs), want[p], why))
         elif alone.get(p):
             for i, (pos, end, _) in own:
-                if known_affected(f, [spans[j][2] for j in range(i)], byp):
-                    continue        # KNOWN importer-verdict-depends-on-earlier-import
                 got = [v for vp, v in vs + fs if pos <= vp < end]
                 if any(v != alone[p] for v in got):
                     problems.append('%s reported %s here but %s when validated alone (its own assertions hold, it imports a file with a failing assertion, and no earlier file of this run imports that file)' % (p, '/'.join(got), alone[p]))
